@@ -294,11 +294,20 @@ def r163(ctx, rep):
         raise AnalysisError(f"only {found} initial active-set masks found in the three minimisers (floor 6)")
     # maximiser
     h = ctx.func(HELPERS[0])
+    # the helper and the private functions it calls in its module
+    hs = [h]
+    for ev in ctx.events(h):
+        for t in ev.targets:
+            if t.kind == "repo" and t.func.module is h.module and t.func not in hs:
+                hs.append(t.func)
     fixed = {}
-    for node in ast.walk(h.node):
-        if isinstance(node, ast.Assign) and len(node.targets) == 1 and isinstance(node.targets[0], ast.Name) and node.targets[0].id in ("fixed_xl", "fixed_xu"):
-            if node.targets[0].id not in fixed:
-                fixed[node.targets[0].id] = node
+    owner = {}
+    for hh in hs:
+        for node in ast.walk(hh.node):
+            if isinstance(node, ast.Assign) and len(node.targets) == 1 and isinstance(node.targets[0], ast.Name) and node.targets[0].id in ("fixed_xl", "fixed_xu"):
+                if node.targets[0].id not in fixed:
+                    fixed[node.targets[0].id] = node
+                    owner[node.targets[0].id] = hh
     # guard of the branch that uses the step: grad @ step >= 0  => direction +grad
     guard = None
     for node in ast.walk(h.node):
@@ -332,7 +341,7 @@ def r163(ctx, rep):
                         f"so a component may be sent to its {'lower' if bound == 'xl' else 'upper'} bound ({bound} {'<=' if bound == 'xl' else '>='} 0) only where grad {want_g} 0; "
                         f"found `{norm(node.value)}`: grad_i * step_i <= 0 there, the guard fails and the zero step is returned whenever the box fits in the trust region")
     # the stores use the matching bound
-    for node in ast.walk(h.node):
+    for node in [x for hh in hs for x in ast.walk(hh.node)]:
         if isinstance(node, ast.Assign) and isinstance(node.targets[0], ast.Subscript) and norm(node.targets[0].value) == "cauchy_step" and isinstance(node.value, ast.Subscript):
             m, src, sm = norm(node.targets[0].slice), norm(node.value.value), norm(node.value.slice)
             if m in ("fixed_xl", "fixed_xu"):
